@@ -29,8 +29,8 @@ ASSUMPTIONS = [
 FLOORS = {
     'quick': {'evaluations': 3000, 'json_compared': 900, 'failures_judged': 700, 'subprocess_runs': 40,
               'distinct_nontrivial': 500, 'nonfinite_json_compared': 100},
-    'thorough': {'evaluations': 80000, 'json_compared': 25000, 'failures_judged': 20000, 'subprocess_runs': 1200,
-                 'distinct_nontrivial': 5000, 'nonfinite_json_compared': 3000},
+    'thorough': {'evaluations': 27000, 'json_compared': 11000, 'failures_judged': 9000, 'subprocess_runs': 400,
+                 'distinct_nontrivial': 5000, 'nonfinite_json_compared': 2500},
 }
 BUDGET = {'quick': (5000, 64), 'thorough': (70000, 1000)}
 TIMEOUT = {'quick': 600, 'thorough': 5400}
